@@ -5,7 +5,8 @@
         model column: `ok <status>;… <msghex> <machex|->` (statuses of every call, the finished
         message, the MAC handed to the model for signed TSIG modes); spec column `-` (the
         specification is evaluated by `waudit` on the implementation's own octets)
-    waudit <buflen> <limit> <mode> <fill> <ops> <statuses> <msghex> <machex|->
+    paudit …  same arguments as `waudit`; only the pointer audit of C13 is evaluated
+    waudit <buflen> <limit> <mode> <fill> <ops> <statuses> <msghex[|msghex…]> <machex|->
         spec column : `ok` iff the given (implementation's) statuses and octets satisfy the
                       specification `QV.Spec.Message.checkSession` (independent decoder, abstract
                       message of the successful calls, size limit, no spurious truncation,
@@ -273,6 +274,21 @@ def toSpecOp : Op → Spec.Message.SOp
   | .templateSubsequent n _ _ => .templateSubsequent n
   | .getters => .getters
 
+/-- `waudit` (the whole of C12 + C13) / `paudit` (the pointer audit of C13 only) -/
+def audit (ptrOnly : Bool) (buflen limit mode fill ops st msgs mac : String) : Option (String × String) :=
+  match sessionOf buflen limit mode fill ops, (msgs.splitOn "|").mapM unhexFast,
+        (if mac = "-" then some none else (bytesArg mac).map some) with
+  | some (bl, li, md, opl, some (.ok r)), some implMsgs, some macv =>
+    let sops := opl.map toSpecOp
+    let specCol := Spec.Message.checkSession bl li (toSpecMode md) sops (st.splitOn ";") implMsgs macv ptrOnly
+    -- the same check on the model's own output
+    let modelCol := match r.msg with
+      | some m =>
+        Spec.Message.checkSession bl li (toSpecMode md) sops r.statuses (r.pre ++ [m]) r.mac ptrOnly
+      | none => "viol:model-panic"
+    some (modelCol, specCol)
+  | _, _, _ => some bad
+
 def writerHandler : Handler := fun op args =>
   match op, args with
   | "w", [buflen, limit, mode, fill, ops] =>
@@ -281,19 +297,8 @@ def writerHandler : Handler := fun op args =>
     | some (_, _, _, _, some (.err e)) => some ("err:" ++ e.toString, "-")
     | some (_, _, _, _, some .panic) => some ("panic", "-")
     | _ => some bad
-  | "waudit", [buflen, limit, mode, fill, ops, st, msgs, mac] =>
-    match sessionOf buflen limit mode fill ops, (msgs.splitOn "|").mapM unhexFast,
-          (if mac = "-" then some none else (bytesArg mac).map some) with
-    | some (bl, li, md, opl, some (.ok r)), some implMsgs, some macv =>
-      let sops := opl.map toSpecOp
-      let specCol := Spec.Message.checkSession bl li (toSpecMode md) sops (st.splitOn ";") implMsgs macv
-      -- the model's own output (prefix messages before each clear_rrs are the model's too)
-      let modelCol := match r.msg with
-        | some m =>
-          Spec.Message.checkSession bl li (toSpecMode md) sops r.statuses (r.pre ++ [m]) r.mac
-        | none => "viol:model-panic"
-      some (modelCol, specCol)
-    | _, _, _ => some bad
+  | "waudit", [buflen, limit, mode, fill, ops, st, msgs, mac] => audit false buflen limit mode fill ops st msgs mac
+  | "paudit", [buflen, limit, mode, fill, ops, st, msgs, mac] => audit true buflen limit mode fill ops st msgs mac
   | _, _ => none
 
 end QV.Driver
